@@ -10,8 +10,10 @@ usage: overlay.py <out.json> [--keep-tests]
 Nothing in /repo is written.
 """
 import glob
+import hashlib
 import json
 import os
+import subprocess
 import sys
 
 VERIF = os.environ.get("VERIF_DIR", "/verif")
@@ -25,8 +27,87 @@ PKG_DIRS = {
     "rebalancing": "internal/rebalancing",
     "utils": "internal/utils",
 }
-VIRTUAL = ["vkit", "h5ref", "vsched", "vos"]
+VIRTUAL = ["vkit", "h5ref", "vsched", "vsync", "vtime", "vctx", "vos"]
 VOS_FILES = ["file.go", "internal/writer/writer.go"]
+
+
+# C18 (VERIF_SCHED=1): packages whose non-test sources are rewritten by tools/instrument
+SCHED_DIRS = {"structures": "internal/structures", "rebalancing": "internal/rebalancing"}
+SCHED_FILES = {"utils": ["internal/utils/bufferpool.go"]}
+
+
+def sched_instrument(replace, extra_map, out):
+    """Rewrite the CURRENT sources (working tree, or the file an extra overlay substitutes)
+    with tools/instrument and map the results over the originals. Any construct the rewriter
+    does not know ends the check with exit 2."""
+    build = os.path.dirname(os.path.abspath(out))
+    gen = os.path.join(build, "schedgen")
+    os.makedirs(gen, exist_ok=True)
+    tool = os.path.join(build, "instrument")
+    src = os.path.join(VERIF, "tools", "instrument", "main.go")
+    if not os.path.exists(tool) or os.path.getmtime(tool) < os.path.getmtime(src):
+        env = dict(os.environ, GOFLAGS="-mod=mod", GOPROXY="off")
+        r = subprocess.run(["go", "build", "-o", tool + ".%d" % os.getpid(), src], cwd=REPO, env=env,
+                           stdout=subprocess.PIPE, stderr=subprocess.STDOUT, text=True)
+        if r.returncode != 0:
+            sys.stderr.write("overlay: cannot build tools/instrument:\n" + r.stdout)
+            sys.exit(2)
+        os.replace(tool + ".%d" % os.getpid(), tool)
+    todo = []  # (pkg, virtual path)
+    for pkg, rel in SCHED_DIRS.items():
+        for f in sorted(glob.glob(os.path.join(REPO, rel, "*.go"))):
+            if not f.endswith("_test.go"):
+                todo.append((pkg, f))
+    for pkg, rels in SCHED_FILES.items():
+        for rel in rels:
+            todo.append((pkg, os.path.join(REPO, rel)))
+    args, tmp = [], {}
+    for pkg, virt in todo:
+        real = extra_map.get(virt, virt)
+        if real == "":
+            continue
+        t = os.path.join(gen, "tmp.%d.%s" % (os.getpid(), virt.replace("/", "__")))
+        tmp[virt] = t
+        args.append("%s=%s=%s" % (virt, real, t))
+    r = subprocess.run([tool] + args, stdout=subprocess.PIPE, stderr=subprocess.PIPE, text=True)
+    if r.returncode != 0:
+        sys.stderr.write(r.stderr)
+        for t in tmp.values():
+            if os.path.exists(t):
+                os.remove(t)
+        sys.exit(2)
+    changed = {}
+    for line in r.stdout.splitlines():
+        # instrumented <virt>: <summary>
+        if line.startswith("instrumented "):
+            virt, summary = line[len("instrumented "):].split(": ", 1)
+            changed[virt] = summary
+    pkgs = set()
+    for pkg, virt in todo:
+        t = tmp.get(virt)
+        if t is None:
+            continue
+        if changed.get(virt, "unchanged") == "unchanged":
+            os.remove(t)
+            continue
+        data = open(t, "rb").read()
+        dst = os.path.join(gen, hashlib.sha1(data).hexdigest()[:16] + "_" + os.path.basename(virt))
+        os.replace(t, dst)
+        replace[virt] = dst
+        extra_map.pop(virt, None)
+        pkgs.add(pkg)
+    dirs = dict(SCHED_DIRS, utils="internal/utils")
+    for pkg in sorted(pkgs):
+        text = ('//go:build verif\n\npackage %s\n\nimport "github.com/scigolib/hdf5/internal/verif/vsched"\n\n'
+                'func init() { vsched.MarkInstrumented("%s") }\n' % (pkg, pkg))
+        dst = os.path.join(gen, "marker_%s.go" % pkg)
+        if not os.path.exists(dst) or open(dst).read() != text:
+            with open(dst, "w") as fh:
+                fh.write(text)
+        replace[os.path.join(REPO, dirs[pkg], "zz_verif_instrumented.go")] = dst
+    sys.stderr.write("overlay: instrumented %d files (%s)\n" % (
+        len([v for v in changed.values() if v != "unchanged"]),
+        "; ".join("%s: %s" % (os.path.basename(k), v) for k, v in sorted(changed.items()) if v != "unchanged")))
 
 
 def main():
@@ -70,6 +151,13 @@ def main():
                 fh.write(text)
             replace[src] = dst
             extra_map.pop(src, None)
+        replace.update(extra_map)
+    elif os.environ.get("VERIF_SCHED") == "1":
+        extra_map = {}
+        if os.environ.get("VERIF_EXTRA_OVERLAY"):
+            with open(os.environ["VERIF_EXTRA_OVERLAY"]) as fh:
+                extra_map = json.load(fh)["Replace"]
+        sched_instrument(replace, extra_map, out)
         replace.update(extra_map)
     else:
         extra = os.environ.get("VERIF_EXTRA_OVERLAY")
